@@ -181,7 +181,7 @@ def main(argv=None):
             # helper ...): the proof cannot be replayed until the contract is re-attached -- undecided, not a violation
             for v in e["vcs"]:
                 if not v.get("reason"):
-                    v["reason"] = "loop restructured: its contract has to be re-attached (no verdict)"
+                    v["reason"] = ("private helper signature changed" if "signature-of-private-helper" in e["name"] else "loop restructured") + ": its contract has to be re-attached (no verdict)"
             undecided.append(e)
             continue
         if mask(e["name"]) in known_names:
